@@ -26,6 +26,7 @@ type CaseC03 struct {
 	Typed     []string    `json:"typed,omitempty"`      // Go types given to the numeric scalars, in walk order, cyclically ("" keeps float64)
 	KeyPrefix string      `json:"key_prefix,omitempty"` // "_": SetGlobalKeyMapPrefix("_") is in force; the text key is _text and keys like _seq, _comment are ordinary elements
 	Alias     *AliasSpec  `json:"alias,omitempty"`      // one container object gets a second parent in the value (a Map built in Go may share sub-structure)
+	Detour    int         `json:"detour,omitempty"`     // options were changed and put back to their defaults through the documented calls before this call (see optionDetour)
 }
 
 func init() { register("C03", checkC03) }
@@ -38,6 +39,9 @@ func genC03(t *rapid.T) CaseC03 {
 	c := CaseC03{Mode: rapid.SampledFrom([]string{"map-xml", "map-indent", "any", "any-indent", "j2x", "map-xml-root", "map-indent-root"}).Draw(t, "mode")}
 	c.GoEmpty = rapid.IntRange(0, 3).Draw(t, "goempty") == 0
 	c.PreFail = rapid.IntRange(0, 3).Draw(t, "prefail") == 0
+	if rapid.Bool().Draw(t, "detour") {
+		c.Detour = rapid.IntRange(1, 7).Draw(t, "detourkind")
+	}
 	blanks := []string{"", " ", "  ", "\t"}
 	c.Prefix = rapid.SampledFrom(blanks).Draw(t, "prefix")
 	c.Ind = rapid.SampledFrom(blanks).Draw(t, "ind")
@@ -234,6 +238,8 @@ func nestedClasses(v interface{}, out map[string]bool) {
 
 func checkC03(c CaseC03, info *Info) *Failure {
 	defer resetOptions()
+	optionDetour(c.Detour)
+	info.ClassIf(c.Detour%8 != 0, "options changed and restored to their defaults before the call")
 	mxj.XMLEscapeChars(true)
 	decOpts := defaultOpts()
 	if c.KeyPrefix == "_" {
